@@ -41,7 +41,7 @@ CLAIMS = {
                 "index) and paired with edge writes; crosses only where the edge entry is 0; Ok(true) only under edges.sum()==n*n, exhausted "
                 "candidates give Err; lookup reads [idx(lhs), idx(rhs)] in all variants. By induction every entry of an Ok market is the product of "
                 "quotes along a path with inverses on reversed edges, quoted pairs returned as quoted."
-                " Also included: C10's state rules R10.3-R10.6, the FXRates loader rule (S20.2: a stored market goes through try_new) and R10.7 (Python-facing FXRates methods delegate unchanged). S16.1 is included (a stored market's quotes come back exactly: exact float text round trip); the starting-array builders are found by what they return, not by name. R09.8: the edge-count capacity; the Ccy/FXPair loader rules are included. R09.9: a quote is stored as given (FXRate::try_new, and Python's FXRate(...) is that constructor). R09.10: == and hash of Ccy and FXPair are the derived structural ones (or a hand-written field-by-field conjunction). The fx_array / fx_vector exporters of R10.7 are included.",
+                " Also included: C10's state rules R10.3-R10.6, the FXRates loader rule (S20.2: a stored market goes through try_new) and R10.7 (Python-facing FXRates methods delegate unchanged). S16.1 is included (a stored market's quotes come back exactly: exact float text round trip); the starting-array builders are found by what they return, not by name. R09.8: the edge-count capacity; the Ccy/FXPair loader rules are included. R09.9: a quote is stored as given (FXRate::try_new, and Python's FXRate(...) is that constructor). R09.10: == and hash of Ccy and FXPair are the derived structural ones (or a hand-written field-by-field conjunction). The fx_array / fx_vector exporters of R10.7 are included. The operator alignment rules R03.1/R03.3/R03.5 are included (a cross is a product of quotes that may be Dual/Dual2 with nested variable sets).",
         "design_ref": "DESIGN.md §4 C09",
         "note": "Not decided (declared): that every valid tree is accepted (liveness of the recursive fill-in); order/base independence as executed; rounding.",
         "technique": "path flattening of symbolic summaries; array-comprehension semantics of indexed writes (chain typing); quantifier shapes",
@@ -86,7 +86,7 @@ CLAIMS = {
                 "four modified rules as 'F(date), unless the month differs then G(original date)' with F, G opposite members of one family; both "
                 "dispatch tables per modifier (Act = identity) and roll()'s table selection; no calendar type overrides a provided method. The idiom's "
                 "postcondition is the statement; calendars never enter the argument, so it holds for arbitrary calendars."
-                " Also included: C06's predicate rules R06.0-R06.2 and the Python-facing calendar methods (R05.6: arguments handed to the core methods unchanged); R06.3/R06.6: a named or explicit combination is built from exactly the calendars named or given; R07.5: Cal::new keeps the given working week.",
+                " Also included: C06's predicate rules R06.0-R06.2 and the Python-facing calendar methods (R05.6: arguments handed to the core methods unchanged); R06.3/R06.6: a named or explicit combination is built from exactly the calendars named or given; R07.5: Cal::new keeps the given working week. The storage rules S16.2/S16.3/S16.7 for the calendar types are included (a calendar that was stored and loaded is the same calendar).",
         "design_ref": "DESIGN.md §4 C04",
         "note": "Not decided: termination; dates outside chrono's range. Trusted: lib/cel.py loop summarisation; chrono's day arithmetic.",
         "technique": "symbolic summarisation of loops and dispatch tables over typed HIR, compared with idiom normal forms",
